@@ -192,48 +192,64 @@ def textStep (o : XmlOpts) (om : Bool) (d : List Char) (rest : List XTok) : List
 def emitText (d : List Char) (k : List XTok) : List XTok := if d.isEmpty then k else .text d :: k
 
 /-- look-ahead of the `StartTagCloseToken` branch: number of following tokens swallowed when the element is
-collapsed to `/>` (the end tag, and a whitespace-only text before it) -/
-def collapseSkip : List XTok → Option Nat
+collapsed to `/>` (the end tag, and — unless white space is kept — a whitespace-only text before it) -/
+def collapseSkip (o : XmlOpts) : List XTok → Option Nat
   | .endTag _ _ :: _ => some 1
-  | .text d :: .endTag _ _ :: _ => if allWs d then some 2 else none
+  | .text d :: .endTag _ _ :: _ => if !o.keepWhitespace && allWs d then some 2 else none
   | _ => none
 
-/-- tokens written by the loop of `xml.go`; `om` = `omitSpace`, the `Nat` = number of tokens already consumed
-by `tb.Shift()` in the empty-element branch (0 at the call) -/
-def emitGo (o : XmlOpts) : Bool → Nat → List XTok → List XTok
-  | _, _, [] => []
-  | om, skip + 1, _ :: r => emitGo o om skip r
-  | om, 0, t :: r =>
+/-- `escapeCDEnd(b, n)` of `xml.go`, data part: a `>` that follows two `]` (`n` = number of `]` written just
+before `b`) is written as `&gt;` -/
+def escCD : Nat → List Char → List Char
+  | _, [] => []
+  | n, c :: r =>
+    if c == ']' then c :: escCD (n + 1) r
+    else if c == '>' && 2 ≤ n then '&' :: 'g' :: 't' :: ';' :: escCD 0 r
+    else c :: escCD 0 r
+
+/-- `escapeCDEnd(b, n)`, second result: number of `]` at the end of the data -/
+def brAfter : Nat → List Char → Nat
+  | n, [] => n
+  | n, c :: r => if c == ']' then brAfter (n + 1) r else brAfter 0 r
+
+/-- Tokens written by the loop of `xml.go`.  State: `om` = `omitSpace`, `br` = `brackets`, `pi` = `inPI`; the last
+`Nat` = number of tokens already consumed by `tb.Shift()` in the empty-element branch (0 at the call). -/
+def emitGo (o : XmlOpts) : Bool → Nat → Bool → Nat → List XTok → List XTok
+  | _, _, _, _, [] => []
+  | om, br, pi, skip + 1, _ :: r => emitGo o om br pi skip r
+  | om, br, pi, 0, t :: r =>
     match t with
     | .cdata data txt =>
-      if txt.isEmpty then emitGo o om 0 r
+      if txt.isEmpty then emitGo o om br pi 0 r
       else
-        (match escapeCDATAVal txt with
-          | some e => XTok.text e
-          | none => XTok.cdata data txt) :: emitGo o (if endsWs txt then true else om) 0 r
+        match escapeCDATAVal txt with
+        | some e => XTok.text (escCD br e) :: emitGo o (endsWs txt) (brAfter br e) pi 0 r
+        | none => XTok.cdata data txt :: emitGo o (endsWs txt) 0 pi 0 r
     | .text d =>
       let s := textStep o om d r
-      emitText s.1 (emitGo o s.2 0 r)
-    | .startTag n => .startTag n :: emitGo o (if o.keepWhitespace then false else om) 0 r
-    | .endTag d n => .endTag (endTagOut d n) n :: emitGo o (if o.keepWhitespace then false else om) 0 r
+      emitText (escCD br s.1) (emitGo o s.2 (brAfter br s.1) pi 0 r)
+    | .comment _ => emitGo o om br pi 0 r
+    | .startTag n => .startTag n :: emitGo o (if o.keepWhitespace then false else om) 0 pi 0 r
+    | .endTag d n => .endTag (endTagOut d n) n :: emitGo o (if o.keepWhitespace then false else om) 0 pi 0 r
     | .startTagClose =>
-      match collapseSkip r with
-      | some n => .startTagCloseVoid :: emitGo o om n r
-      | none => .startTagClose :: emitGo o om 0 r
-    | .attr n v => .attr n (attrOut v) :: emitGo o om 0 r
-    | .comment _ => emitGo o om 0 r
-    | .startTagPI n => .startTagPI n :: emitGo o om 0 r
-    | .startTagCloseVoid => .startTagCloseVoid :: emitGo o om 0 r
-    | .startTagClosePI => .startTagClosePI :: emitGo o om 0 r
-    | .doctype d => .doctype d :: emitGo o om 0 r
+      match collapseSkip o r with
+      | some n => .startTagCloseVoid :: emitGo o om 0 pi n r
+      | none => .startTagClose :: emitGo o om 0 pi 0 r
+    | .attr n v => .attr n (attrOut v) :: emitGo o om 0 pi 0 r
+    | .attrBare d n => (if pi then XTok.attrBare d n else XTok.attr n []) :: emitGo o om 0 pi 0 r
+    | .startTagPI n => .startTagPI n :: emitGo o om 0 true 0 r
+    | .startTagCloseVoid => .startTagCloseVoid :: emitGo o om 0 pi 0 r
+    | .startTagClosePI => .startTagClosePI :: emitGo o om 0 false 0 r
+    | .doctype d => .doctype d :: emitGo o om 0 pi 0 r
 
-def emit (o : XmlOpts) (om : Bool) (ts : List XTok) : List XTok := emitGo o om 0 ts
+def emit (o : XmlOpts) (om : Bool) (ts : List XTok) : List XTok := emitGo o om 0 false 0 ts
 
 /-- bytes written for one token -/
 def render : XTok → List Char
   | .startTag n => '<' :: n
   | .startTagPI n => '<' :: '?' :: n
   | .attr n v => ' ' :: (n ++ '=' :: v)
+  | .attrBare d _ => d
   | .startTagClose => ['>']
   | .startTagCloseVoid => ['/', '>']
   | .startTagClosePI => ['?', '>']
